@@ -32,7 +32,7 @@ ASSUMPTIONS = [
     "bases as sorted expanded strings, refusals by exception type",
 ]
 TIMEOUT = {"quick": 110, "thorough": 600}
-DEADLINE = {"quick": 100, "thorough": 1700}
+DEADLINE = {"quick": 100, "thorough": 1000}
 MIN_DECIDING = {"quick": 8, "thorough": 120}
 NCASES = {"quick": 16, "thorough": 700}
 ROOT = os.path.dirname(os.path.dirname(os.path.dirname(os.path.abspath(__file__))))
